@@ -1,5 +1,6 @@
 import Pyunicorn.Model.Proto
 import Pyunicorn.Model.Repr
+import Pyunicorn.Model.ReprAttrs
 /-! Line-protocol driver for C05 (see harness/c05.py for the request grammar). -/
 open Pyunicorn Pyunicorn.Proto Pyunicorn.Repr
 
@@ -42,15 +43,26 @@ def showGraph (net : Net) : String :=
   let es := es.filter fun p => net.directed || decide (p.1 ≤ p.2)
   if es.isEmpty then "-" else join (es.map fun p => s!"{p.1},{p.2}") ";"
 
-def showNet (net : Net) : String :=
-  let attr := match linkAttr net with
-    | none => "none"
-    | some f => showRatMat ((List.range net.N).map fun i => (List.range net.N).map fun j => f i j)
+def showAttr (x : NetA) (a : String) : String :=
+  match linkAttrA x a with
+  | none => "none"
+  | some f => showRatMat ((List.range x.core.N).map fun i => (List.range x.core.N).map fun j => f i j)
+
+/-- the three attribute names the harness uses -/
+def attrName : Nat → String
+  | 1 => "link_weights"
+  | 2 => "corr"
+  | _ => "aux_1"
+
+def showNet (x : NetA) : String :=
+  let net := x.core
   let gvw := match net.gvw with
     | none => "none"
     | some v => showRats v
+  let names := if x.names.isEmpty then "-" else join x.names ","
   join [toString net.N, toString net.nLinks, showRat net.density, showIntMat net.spA,
-        showGraph net, showRats net.w, showRat net.total, showRat net.mean, attr, gvw] "|"
+        showGraph net, showRats net.w, showRat net.total, showRat net.mean,
+        showAttr x (attrName 1), gvw, showAttr x (attrName 2), showAttr x (attrName 3), names] "|"
 
 /-! arguments of the history statements are small formulas evaluated on both sides
 (harness/c05.py: `formula_w`, `formula_v`, `formula_a`) -/
@@ -71,43 +83,49 @@ def formulaA (directed : Bool) (a b c : Nat) (i j : Nat) : Int :=
 
 def opArgs (s : String) : List Int := (s.splitOn "_").filterMap String.toInt?
 
-/-- the statements of `Repr.Op`, by name -/
-def parseOp (net : Net) (op : String) : Option Op :=
+/-- the statements of `Repr.OpA`, by name -/
+def parseOp (net : Net) (op : String) : Option OpA :=
   match op.splitOn "=" with
   | ["copy"] => some .copy
   | ["saveload"] => some .reload
   | ["save"] => some .save
   | ["regraph"] => some .regraph
-  | ["delattr"] => some .delAttr
+  | ["ucopy"] => some .ucopy
+  | ["pcopy"] => some .pcopy
+  | ["edgelist"] => some .edgelist
+  | ["delattr"] => some (.delAttr (attrName 1))
+  | ["delattr2"] => some (.delAttr (attrName 2))
+  | ["delattr3"] => some (.delAttr (attrName 3))
   | ["setwnone"] => some (.setW none)
   | ["setw", args] => match opArgs args with
     | [a, b, k] => some (.setW (some (formulaW net.N a.toNat b.toNat k)))
     | _ => none
-  | ["setattr", args] => match opArgs args with
-    | [a, b, c, k] => some (.setAttr (formulaV net.directed a.toNat b.toNat c.toNat k))
-    | _ => none
-  | ["setadj", args] => match opArgs args with
-    | [a, b, c] => some (.setAdj (ofDenseMat net.N net.N
-        (formulaA net.directed a.toNat b.toNat c.toNat)))
-    | _ => none
+  | [nm, args] =>
+    let k := if nm == "setattr" then 1 else if nm == "setattr2" then 2
+             else if nm == "setattr3" then 3 else 0
+    if k != 0 then match opArgs args with
+      | [a, b, c, e] => some (.setAttr (attrName k) (formulaV net.directed a.toNat b.toNat c.toNat e))
+      | _ => none
+    else if nm == "setadj" then match opArgs args with
+      | [a, b, c] => some (.setAdj (ofDenseMat net.N net.N
+          (formulaA net.directed a.toNat b.toNat c.toNat)))
+      | _ => none
+    else none
   | _ => none
 
-def applyOp (cosLat : List Rat) (_wtype : Nat) (r : Except Err Net) (op : String) : Except Err Net := do
-  let net ← r
-  match parseOp net op with
-  | some o => step id net o
+def applyOp (cosLat : List Rat) (_wtype : Nat) (r : Except Err NetA) (op : String) :
+    Except Err NetA := do
+  let x ← r
+  match parseOp x.core op with
+  | some o => stepA id x o
   | none =>
+  let gml := gmlStoreA stripUnderscores
   match op with
-  | "ucopy" => undirectedCopy net
-  | "pcopy" =>        -- permuted_copy(identity): Network(adjacency=sp_A[idx][:, idx], node_weights=w[idx])
-      init net.directed (.sparse net.sparse) (some net.w)
-  | "saveload_gml" => saveLoad gmlStore net
-  | "loadspatial_gml" => loadViaAdjacency (gmlStore (toIGraph net)) none
-  | "loadgeo_gml" => loadViaAdjacency (gmlStore (toIGraph net)) (some (geoWeights cosLat 1))
-  | "loadspatial" => loadViaAdjacency (toIGraph net) none
-  | "loadgeo" => loadViaAdjacency (toIGraph net) (some (geoWeights cosLat 1))
-  | "edgelist" =>     -- Network(edge_list=net.edge_list(), n_nodes=net.N, directed, node_weights)
-      init net.directed (.edges (nzCoords net.sparse) (some net.N)) (some net.w)
+  | "saveload_gml" => stepA gml x .reload
+  | "loadspatial_gml" => loadViaAdjacencyA (gml (saveA x).2) none
+  | "loadgeo_gml" => loadViaAdjacencyA (gml (saveA x).2) (some (geoWeights cosLat 1))
+  | "loadspatial" => loadViaAdjacencyA (saveA x).2 none
+  | "loadgeo" => loadViaAdjacencyA (saveA x).2 (some (geoWeights cosLat 1))
   | _ => .error .indexError
 
 def answer (toks : List String) : String :=
@@ -121,20 +139,37 @@ def answer (toks : List String) : String :=
       | "coo" => some (.sparse ⟨a.toNat!, b.toNat!, entriesOf (intMat data)⟩)
       | "edges" => some (.edges (pairsOf (natMat data)) (if a == "none" then none else some a.toNat!))
       | _ => none
-    let r0 : Except Err Net :=
+    let r0 : Except Err NetA :=
       if ctor == "igraph" then
-        fromIGraph ⟨a.toNat!, d, pairsOf (natMat data), optRats w, optRats attr⟩
-      else match inp? with
+        fromIGraphA ⟨⟨a.toNat!, d, pairsOf (natMat data), optRats w, none⟩,
+          match optRats attr with
+          | none => []
+          | some vs => [(attrName 1, vs), (attrName 2, vs.map fun v => -v / 2)]⟩
+      else
+        -- subclass constructors: a = N, b = threshold, data = similarity / series / resistances
+        let q := (rats b).headD 0
+        let sub? : Option (Except Err Net) := match ctor with
+          | "climate" => some (climateInit d a.toNat! (ratFn (ratMat data)) q cl wt)
+          | "coupled" => some (coupledInit d a.toNat! (ratFn (ratMat data)) q cl wt)
+          | "recurrence" => some (recurrenceInit (rats data) q (optRats w))
+          | "res" => some (resInit a.toNat! (ratFn (ratMat data)) cl wt)
+          | _ => none
+        match (match sub? with
+               | some r => some r
+               | none => inp?.map fun inp =>
+                  -- SpatialNetwork / GeoNetwork take no weights: `net.node_weights = w` afterwards
+                  if cls == "geo" then geoInit d inp cl wt
+                  else if cls == "spatial" then init d inp none
+                  else init d inp (optRats w)) with
         | none => .error .indexError
-        | some inp =>
-          -- SpatialNetwork / GeoNetwork take no weights: `net.node_weights = w` afterwards
-          let r := if cls == "geo" then geoInit d inp cl wt
-                   else if cls == "spatial" then init d inp none
-                   else init d inp (optRats w)
+        | some r =>
           let r := if cls == "net" then r else match optRats w with
             | none => r
             | some ws => r.bind fun net => setWeights net (some ws)
-          if attr == "none" then r else r.map fun net => setLinkAttr net (ratFn (ratMat attr))
+          let r := r.map NetA.fresh
+          if attr == "none" then r else r.map fun x =>
+            let V := ratFn (ratMat attr)
+            setLinkAttrA (setLinkAttrA x (attrName 1) V) (attrName 2) fun i j => -(V i j) / 2
     let r := (splitTok ops ",").foldl (applyOp cl wt) r0
     match r with
     | .ok net => showNet net
